@@ -863,7 +863,10 @@ class C08(FloatSpec):
             'polarity as Python and NumPy ints and floats; wav normalisation None / pe / rms x int16 / int32 / uint8 / float32 x '
             'positional / keyword / pathlib, played through next(); factories re-used after reset; the same request after '
             'the caller overwrote the result; fixed gain changed after first use and set back; 0/1/2-sample stimuli, level '
-            '0 / -20 / 120, step 0; tones of 2^16..2^17 samples starting beyond sample 2^31 and 2^20-sample noise.')
+            '0 / -20 / 120, step 0; tones of 2^16..2^17 samples starting beyond sample 2^31 and 2^20-sample noise. Targeted pass: 39 '
+            'requests per quick run whose optional arguments carry the documented defaults and are left out (law: = every '
+            'optional argument spelled out); 12 equalised chirps / band-limited clicks / FIR noises with max_correction '
+            'left out, inf, finite but not needed (law: = inf), or binding; per-bin level of the equalised 1 s click.')
 
     def gen(self, rng, tier):
         quick = tier == 'quick'
